@@ -548,8 +548,8 @@ func resolveDisableMap(r Exp, v map[string]Exp, disable []Exp) ([]Exp, error) {
 	}
 	allFalse := true
 	allTrue := true
-	for _, e := range v {
-		switch e := e.(type) {
+	for _, k := range sortedKeys(v) {
+		switch e := v[k].(type) {
 		case *RefExp, *NullExp:
 			allTrue = false
 			allFalse = false
@@ -572,8 +572,8 @@ func resolveDisableMap(r Exp, v map[string]Exp, disable []Exp) ([]Exp, error) {
 		return disable, nil
 	}
 	if allTrue {
-		for _, e := range v {
-			return []Exp{e}, nil
+		for _, k := range sortedKeys(v) {
+			return []Exp{v[k]}, nil
 		}
 	}
 	result := make([]Exp, len(disable), len(disable)+1)
@@ -727,7 +727,8 @@ func wrapDisabled(d, exp Exp, lookup *TypeLookup) (Exp, error) {
 			m := *v
 			m.Value = make(map[string]Exp, len(m.Value))
 			fork := make(map[*CallStm]CollectionIndex, 1)
-			for k, vv := range v.Value {
+			for _, k := range sortedKeys(v.Value) {
+				vv := v.Value[k]
 				v, err := wrapDisabled(vv, exp, lookup)
 				if err != nil {
 					errs = append(errs, err)
@@ -774,7 +775,8 @@ func (node *CallGraphStage) unsplit(lookup *TypeLookup) error {
 		})
 	}
 	node.Outputs.Exp = e
-	for k, binding := range node.Inputs {
+	for _, k := range sortedKeys(node.Inputs) {
+		binding := node.Inputs[k]
 		// Ensure inputs can be scanned for refs, and also that their
 		// types are cached.  Otherwise, at runtime mrp may end up trying to cache
 		// the types concurrently.
